@@ -21,6 +21,7 @@ mod rng;
 mod scn;
 mod sha1;
 mod shrink;
+mod wedge;
 mod world;
 
 use scn::{scenario, Found, Scenario, Sink, Tier};
@@ -407,7 +408,9 @@ fn cmd_replay(path: &str) -> i32 {
         eprintln!("unknown property {prop}");
         return 2;
     };
+    wedge::enter(&plan, scn.property(), doc["job"].as_u64().unwrap_or(0), doc["sub"].as_u64().unwrap_or(0));
     let out = exec::run_plan(&plan);
+    wedge::leave();
     let mut pr = Vec::new();
     let mut v = scn.check(&plan, &out, &mut pr);
     v.extend(out.violations.iter().cloned());
@@ -549,6 +552,7 @@ fn cmd_fps(prop: &str, tier: Tier, from: u64, to: u64) -> i32 {
 
 fn main() {
     exec::install_panic_hook();
+    wedge::start_monitor(verif_dir());
     let args: Vec<String> = std::env::args().collect();
     let code = match args.get(1).map(|s| s.as_str()) {
         Some("run") if args.len() >= 3 => cmd_run(&args[2], tier_from(args.get(3))),
